@@ -57,9 +57,34 @@ def run(facts, rep, tier, ctx):
     c07.delegation(facts, rep, ws, "R11.7a", D)
     # R11.8 primitives
     scratch2 = Report("y")
-    found, n2, mm = c01.table_m(facts, scratch2, "M", "Mk", ops_filter=("remove_file", "remove_dir"))
+    found, n2, mm = c01.table_m(facts, scratch2, "M", "Mk", ops_filter=("remove_file", "remove_dir") + c01.TWO_PATH_OPS)
     for o in scratch2.obligations:
         if o["rule"] == "M":
             rep.ob("R11.8", o["fn"], o["key"].split("|")[2], o["ok"], o["detail"], o["loc"])
     c10.marker_rules(facts, rep, ws, prefix="R11.8", only=("R10.1", "R10.5"))
+    # the async path type carries its own copy of every composite
+    wa = World(facts, True)
+    rep.ob("R11.A", "async_vfs", "async world present", wa.present(), "", "")
+    if wa.present():
+        A = c10._Prefixed(rep, "A")
+        pra = PathRules(facts, wa, D)
+        k = pra.table_p(A, "R11.1") + pra.fast_paths(A, "R11.2") + pra.generic_routes(A, "R11.3") + \
+            pra.copy_dir_count(A, "R11.4") + pra.create_dir_all(A, "R11.5")
+        scratch = Report("xa")
+        c20.run_world(facts, scratch, wa, {"results": 0, "err_edges": 0, "kind_arms": 0})
+        for o in scratch.obligations:
+            if o["rule"] in ("R20.2", "R20.4") and any(m in o["fn"] for m in ("copy_file", "move_file", "move_dir", "copy_dir", "create_dir_all", "remove_dir_all")):
+                k += 1
+                A.ob("R11.2e", o["fn"], o["key"].split("|")[2], o["ok"], o["detail"], o["loc"])
+        k += physrules.table_o_shape(facts, A, "R11.7", wa)
+        k += c07.delegation(facts, A, wa, "R11.7a", D)
+        scratch2 = Report("ya")
+        c01.table_m(facts, scratch2, "M", "Mk", self_ty=wa.memory, trait="AsyncFileSystem",
+                    ops_filter=("remove_file", "remove_dir") + c01.TWO_PATH_OPS)
+        for o in scratch2.obligations:
+            if o["rule"] == "M":
+                k += 1
+                A.ob("R11.8", o["fn"], o["key"].split("|")[2], o["ok"], o["detail"], o["loc"])
+        k += c10.marker_rules(facts, A, wa, prefix="R11.8", only=("R10.1", "R10.5"))
+        rep.floor("async-world transfer obligations", k, 120)
     rep.assume("copy_dir/move_dir into the source's own subtree is excluded by the property")
